@@ -217,7 +217,9 @@ def coq_compare(ctx, tag, cases):
             for a in sigs['%s_clock' % cls]['state']:
                 if isinstance(getattr(leaf, a), (list, tuple)): list_fields.add((cls, a))
     arms = []
+    present = {type(leaf).__name__ for c in cases for leaf in c['dump'].seq_objs}
     for cls, parts in st_obs_def(sigs):
+        if cls not in present: continue
         e = ' ++ '.join(('%s' % t) if (cls, a) in list_fields else '[%s]' % t for t, a in parts)
         arms.append('  | St_%s s => %s' % (cls, e))
     body.append('Definition st_obs (a : AnySt) : list Z :=\n  match a with\n%s\n  | _ => []\n  end.\n' % '\n'.join(arms))
@@ -240,7 +242,9 @@ def coq_compare(ctx, tag, cases):
             terms.append('first_diff exp%d (run_trace (with_drivers d%d ds%d_%d) (init d%d d%d_st0) steps%d)' % (i, i, i, j, i, i, i))
         terms.append('(let f := final_state d%d (init d%d d%d_st0) steps%d in (map st_obs (sts f), Z.of_nat (total f), Z.of_nat (length (pend f))))' % (i, i, i, i))
         items.append(('c%d' % i, '(' + ', '.join(terms) + ')'))
+    ctx.log('evaluating %d designs in Coq (%s)' % (len(cases), tag))
     res = common.coq_eval(tag, '\n'.join(body), items, timeout=900)
+    ctx.log('... done')
     problems = []
     for i, c in enumerate(cases):
         r = res['c%d' % i]
@@ -310,6 +314,7 @@ def run(ctx):
                        'non-trivial when the step clocks at least one sequential leaf whose output changes some wire')
     missing = ctx.regen(NEEDED)
     r = ctx.prove(['Properties/C05.v'])
+    ctx.log('proofs built: %s' % r['ok'])
     scan_bad, scan_stats = scan_clock_methods()
     scan_bad += scan_kernel_shape()
     ctx.notes['clock_scan'] = {'violations': scan_bad, 'classes_with_clock': len(scan_stats['classes_with_clock'])}
